@@ -251,9 +251,16 @@ class CenteredDifferences(BaseGradientApproximator):
             step,
         )
         input_perturbations[input_indices, range(n_indices)] += steps_plus
+        # Drop the backward step below the lower bound
+        # only if the forward step is available;
+        # otherwise both arms would vanish (e.g. equal bounds) and the quotient be 0/0.
         steps_minus = where(
-            input_perturbations[input_indices, range(n_indices, 2 * n_indices)] - step
-            < lower_bounds,
+            (
+                input_perturbations[input_indices, range(n_indices, 2 * n_indices)]
+                - step
+                < lower_bounds
+            )
+            & (steps_plus != 0),
             0,
             -step,
         )
